@@ -89,21 +89,29 @@ fn has_same_dimension_clash(p: &AccessPolicy) -> bool {
 }
 /// user policies: '*', every term, every conjunction / disjunction of two terms, and (t1 && t2) || t3 on a sample
 fn policies(s: &AccessStructure) -> Vec<AccessPolicy> {
+    // built with the constructors, not with the crate's `&` / `|` operators (which simplify and are code under test)
+    let t = |a: &QualifiedAttribute| AccessPolicy::Term(a.clone());
+    let and = |a: AccessPolicy, b: AccessPolicy| AccessPolicy::Conjunction(Box::new(a), Box::new(b));
+    let or = |a: AccessPolicy, b: AccessPolicy| AccessPolicy::Disjunction(Box::new(a), Box::new(b));
     let at = all_attrs(s);
     let mut v = vec![AccessPolicy::Broadcast];
     for a in &at {
-        v.push(AccessPolicy::Term(a.clone()));
+        v.push(t(a));
+        // '*' as an operand
+        v.push(and(t(a), AccessPolicy::Broadcast));
+        v.push(and(AccessPolicy::Broadcast, t(a)));
+        v.push(or(t(a), AccessPolicy::Broadcast));
         for b in &at {
             if a < b {
-                v.push(AccessPolicy::Term(a.clone()) & AccessPolicy::Term(b.clone()));
-                v.push(AccessPolicy::Term(a.clone()) | AccessPolicy::Term(b.clone()));
+                v.push(and(t(a), t(b)));
+                v.push(or(t(a), t(b)));
                 // a conjunction that is a sub-conjunction of another one
-                v.push(AccessPolicy::Term(a.clone()) | (AccessPolicy::Term(a.clone()) & AccessPolicy::Term(b.clone())));
-                v.push((AccessPolicy::Term(a.clone()) & AccessPolicy::Term(b.clone())) | AccessPolicy::Term(b.clone()));
+                v.push(or(t(a), and(t(a), t(b))));
+                v.push(or(and(t(a), t(b)), t(b)));
                 for c in &at {
                     if b < c {
-                        v.push((AccessPolicy::Term(a.clone()) & AccessPolicy::Term(b.clone())) | AccessPolicy::Term(c.clone()));
-                        v.push(AccessPolicy::Term(a.clone()) & (AccessPolicy::Term(b.clone()) | AccessPolicy::Term(c.clone())));
+                        v.push(or(and(t(a), t(b)), t(c)));
+                        v.push(and(t(a), or(t(b), t(c))));
                     }
                 }
             }
@@ -183,6 +191,14 @@ fn associated_rights__one_right_per_conjunction() {
         vchk!(matches!(s.generate_associated_rights(&unknown_attr), Err(Error::AttributeNotFound(_))), "C09: an unknown attribute in an encryption policy is reported (AttributeNotFound)");
         vchk!(matches!(s.generate_associated_rights(&unknown_dim), Err(Error::DimensionNotFound(_))), "C09: an unknown dimension in an encryption policy is reported (DimensionNotFound)");
         vchk!(s.generate_complementary_rights(&unknown_attr).is_err() && s.generate_complementary_rights(&unknown_dim).is_err(), "C09: unknown names in a user policy are reported");
+        if let Some(known) = all_attrs(&s).into_iter().next() {
+            for (what, bad) in [("attribute", &unknown_attr), ("dimension", &unknown_dim)] {
+                for p in [AccessPolicy::Conjunction(Box::new(AccessPolicy::Term(known.clone())), Box::new(bad.clone())), AccessPolicy::Disjunction(Box::new(bad.clone()), Box::new(AccessPolicy::Term(known.clone())))] {
+                    vchk!(s.generate_complementary_rights(&p).is_err(), "C09: an unknown {what} inside the user policy {p:?} is reported, not silently dropped");
+                    vchk!(s.generate_associated_rights(&p).is_err(), "C09: an unknown {what} inside the encryption policy {p:?} is reported, not silently dropped");
+                }
+            }
+        }
     }
     println!("VERIF-COUNT associated_rights__one_right_per_conjunction {n}");
     done();
